@@ -15,6 +15,13 @@ pub struct Knobs {
     pub block_cache_cap: usize,
     pub level_base_bytes: u64,
     pub min_allowed_seeks: usize,
+    /// WriteOptions::synchronous: 0 = never (the default), 1 = always, 2 = alternating per write
+    /// (a synchronous writer is not merged into the group commit of a non-synchronous leader)
+    #[serde(default)]
+    pub sync_mode: u8,
+    /// ReadOptions::fill_cache: 0 = always, 1 = never, 2 = alternating per read
+    #[serde(default)]
+    pub fill_cache_mode: u8,
 }
 
 impl Knobs {
@@ -31,6 +38,8 @@ impl Knobs {
             block_cache_cap: *rng.pick(&[2usize, 4, 16, 64]),
             level_base_bytes: *rng.pick(&[512u64, 2048, 8192, 65536, 1 << 20]),
             min_allowed_seeks: *rng.pick(&[2usize, 5, 20, 100]),
+            sync_mode: *rng.pick(&[0u8, 0, 1, 2, 2]),
+            fill_cache_mode: *rng.pick(&[0u8, 0, 1, 2]),
         }
     }
 }
